@@ -15,7 +15,9 @@
 (*         with the Input-level events seen by a recording bottom input    *)
 (*         (C03, C08, C11, C12, C14, C18, C19)                             *)
 (***************************************************************************)
-EXTENDS Limits, Containers, Append, Json, IOUtils
+EXTENDS Derive, Containers, Append, Json, IOUtils
+
+ExpectedNew(total, fpos) == IF fpos < 0 THEN total ELSE fpos
 
 Rec == ndJsonDeserialize(IOEnv.TRACE)
 Prop == IOEnv.PROP
@@ -48,6 +50,7 @@ RtOK(r) ==
   /\ r.dv = r.v                                     \* the implementation's
   /\ r.n = Len(r.out)
   /\ r.rest = r.tail
+  /\ "eq" \in DOMAIN r => r.eq                            \* equal under the type's own ==
   /\ "bres" \in DOMAIN r => r.bres = "ok" /\ r.bdv = r.v     \* same through the shared-buffer back-end
 
 (***************************************************************************)
@@ -87,7 +90,7 @@ DecOK(r) ==
   /\ m.pos = r.base.n
   /\ \A i \in 1..Len(r.runs) : r.runs[i].res # "panic"
   \* ---- C03 / C08: every configuration with non-binding limits agrees
-  /\ Prop \in {"C03", "C08"} => \A i \in 1..Len(r.runs) : Agrees(r.runs[i], spec)
+  /\ Prop \in {"C03", "C05", "C08", "C20"} => \A i \in 1..Len(r.runs) : Agrees(r.runs[i], spec)
   \* ---- C14: strict prefixes of encodings are rejected; consume-all entry points are exact
   /\ r.pfx => ~spec.ok
   /\ Prop = "C14" =>
@@ -243,8 +246,87 @@ HistOK(r) ==
              IN [ok |-> good /\ slgood, s |-> s2]
   IN FoldLeft(step, [ok |-> TRUE, s |-> <<>>], [i \in 1..n |-> i]).ok
 
+(***************************************************************************)
+(* heap: allocator ledger of one decode of a hostile input (C09).  hev     *)
+(* lists <<live bytes after the request, bytes delivered so far, depth>>   *)
+(* for every request that raised the live total.                           *)
+(***************************************************************************)
+Allowance == 1048576
+RECURSIVE MaxSz(_, _, _)
+\* largest in-memory size of any node of the type (named types resolved once)
+MaxSz(E, ty, fuel) ==
+  LET own == IF "sz" \in DOMAIN ty THEN ty.sz ELSE 0
+      M(a, b) == MaxOf(a, b)
+  IN
+  CASE ty.k \in {"option", "seq", "array"} -> M(own, MaxSz(E, ty.t, fuel))
+    [] ty.k = "set" -> M(M(own, ty.esz), MaxSz(E, ty.t, fuel))
+    [] ty.k = "ptr" -> M(M(own, ty.tsz), MaxSz(E, ty.t, fuel))
+    [] ty.k = "result" -> M(own, M(MaxSz(E, ty.t, fuel), MaxSz(E, ty.e, fuel)))
+    [] ty.k = "map" -> M(M(own, ty.esz), M(MaxSz(E, ty.key, fuel), MaxSz(E, ty.val, fuel)))
+    [] ty.k = "tuple" -> FoldLeft(LAMBDA a, t : M(a, MaxSz(E, t, fuel)), own, ty.ts)
+    [] ty.k = "enum" -> FoldLeft(LAMBDA a, vr : FoldLeft(LAMBDA b, t : M(b, MaxSz(E, t, fuel)), a, vr.ts), own, ty.vs)
+    [] ty.k = "named" -> IF fuel = 0 THEN 0 ELSE MaxSz(E, E[ty.n], fuel - 1)
+    [] OTHER -> own
+HeapBound(E, ty, pos, depth) ==
+  LET ms == MaxSz(E, ty, 2)
+      A == 8 * (ms + 64)
+      node == 16 * ms + 256
+  IN A * (pos + 1) + (Allowance + node) * (depth + 1)
+HeapOK(r) ==
+  /\ r.res \in {"ok", "err"}                       \* an error or a small value, never a crash
+  /\ r.n <= r.len
+  /\ \A i \in 1..Len(r.hev) :
+        LET live == ToNat(r.hev[i][1]) IN
+        /\ live < 1073741824
+        /\ live <= HeapBound(r.E, r.ty, r.hev[i][2], r.hev[i][3])
+  /\ r.leak = 0                                    \* everything requested during the decode is released with the value
+
+(***************************************************************************)
+(* led: construction / drop ledger of a fault vector (C10)                 *)
+(***************************************************************************)
+LedOK(r) ==
+  LET step(a, e) ==
+        IF ~a.ok THEN a
+        ELSE IF e[1] = 0 THEN [ok |-> e[2] \notin a.seen, live |-> a.live \cup {e[2]}, seen |-> a.seen \cup {e[2]}]
+        ELSE IF e[1] = 1 THEN [ok |-> e[2] \in a.live, live |-> a.live \ {e[2]}, seen |-> a.seen]
+        ELSE [ok |-> FALSE, live |-> a.live, seen |-> a.seen]                \* drop of a corrupted element
+      a1 == FoldLeft(step, [ok |-> TRUE, live |-> {}, seen |-> {}], r.ev)
+      a2 == FoldLeft(step, a1, r.ev2)
+      expected == IF r.f < 0 THEN "ok" ELSE IF r.kind = "panic" THEN "panic" ELSE "err"
+  IN
+  /\ r.res = expected
+  /\ a1.ok /\ a2.ok                                         \* no drop before construction, none twice
+  /\ Cardinality(a1.seen) = ExpectedNew(r.total, r.f)       \* elements before the fault were constructed, none after
+  /\ r.res = "ok" => Cardinality(a1.live) = r.total         \* handed over whole
+  /\ r.res # "ok" => a1.live = {}                           \* failure released everything already
+  /\ a2.live = {} /\ r.dropok                               \* dropping the result releases the rest
+  /\ r.leak = 0                                             \* allocator balance
+
+(***************************************************************************)
+(* skipenc: a value in a skipped enum variant encodes to no bytes through  *)
+(* every entry point, and terminates (C05)                                 *)
+(***************************************************************************)
+SkipEncOK(r) ==
+  /\ r.res = "ok" /\ r.out = <<>>
+  /\ \A i \in 1..Len(r.alts) :
+        /\ r.alts[i].res = "ok"
+        /\ IF r.alts[i].kind = "size" THEN r.alts[i].n = 0 ELSE r.alts[i].out = <<>>
+
+(***************************************************************************)
+(* prog: the compiler's verdict on a generated type definition (C17)       *)
+(***************************************************************************)
+ProgOK(r) ==
+  /\ r.compiled = Valid(r.def)                       \* rejected iff the definition has one of the listed faults
+  /\ r.twin.kind # "none" =>                         \* ... and its minimally different valid twin compiles,
+        /\ Valid(r.twin)                             \*     so the fault is what was rejected
+        /\ r.twin_compiled
+
 RecOK(r) ==
   CASE r.k = "enc" -> EncOK(r)
+    [] r.k = "prog" -> ProgOK(r)
+    [] r.k = "skipenc" -> SkipEncOK(r)
+    [] r.k = "heap" -> HeapOK(r)
+    [] r.k = "led" -> LedOK(r)
     [] r.k = "like" -> LikeOK(r)
     [] r.k = "app" -> AppOK(r)
     [] r.k = "hist" -> HistOK(r)
